@@ -72,7 +72,8 @@ def dec_elems(tname, data, strict=True):
         i = 0
         while i < len(data):
             n = data[i]
-            need(i + 1 + n <= len(data), 'SSTRING runs past data')
+            if strict:
+                need(i + 1 + n <= len(data), 'SSTRING runs past data')
             out.append(bytes(data[i + 1:i + 1 + n]).decode('iso-8859-1'))
             i += 1 + n
         return out
@@ -82,7 +83,8 @@ def dec_elems(tname, data, strict=True):
             need(i + 2 <= len(data), 'STRING length truncated')
             n = struct.unpack_from('<H', data, i)[0]
             end = i + 2 + n + (n % 2)
-            need(end <= len(data), 'STRING runs past data')
+            if strict:
+                need(end <= len(data), 'STRING runs past data')
             out.append(bytes(data[i + 2:i + 2 + n]).decode('iso-8859-1'))
             i = end
         return out
@@ -399,18 +401,22 @@ def dec_forward_close_reply(payload):
 
 
 # ------------------------------------------------------------------ lenient request decoder (C08)
-def dec_epath(data, off, padded=False):
+def dec_epath(data, off, padded=False, lenient=False):
     need(len(data) > off, 'epath size missing')
     words = data[off]
     off += 1
     if padded:
         off += 1
     end = off + 2 * words
+    if lenient:
+        end = min(end, len(data))
     need(end <= len(data), 'epath truncated')
     segs = []
     i = off
     while i < end:
         b = data[i]
+        if lenient and not (b == 0x91 or b & 0xE0 == 0x20 or b & 0xE0 == 0x00):
+            return segs, i          # the path ends where no segment can start
         if b == 0x91:
             n = data[i + 1]
             segs.append(('symbolic', bytes(data[i + 2:i + 2 + n]).decode('iso-8859-1')))
@@ -452,6 +458,8 @@ def dec_epath(data, off, padded=False):
             i = j
         else:
             raise DecodeError('unknown segment 0x%02x' % b)
+    if lenient:
+        return segs, i
     need(i == end, 'epath segments overrun')
     return segs, end
 
@@ -461,7 +469,7 @@ def dec_request(msg):
     try:
         need(len(msg) >= 2, 'request too short')
         svc = msg[0]
-        path, off = dec_epath(msg, 1)
+        path, off = dec_epath(msg, 1, lenient=True)
         out = dict(service=svc, path=path)
         rest = msg[off:]
         if svc == READ_TAG:
@@ -476,7 +484,7 @@ def dec_request(msg):
             need(code in TYPES, 'type')
             out['type'] = TYPES[code][0]
             out['elements'] = n
-            out['values'] = dec_elems(out['type'], rest[4:])
+            out['values'] = dec_elems(out['type'], rest[4:], strict=False)
         elif svc == WRITE_FRAG:
             need(len(rest) >= 8, 'write frag header')
             code, n, o = struct.unpack_from('<HHI', rest, 0)
@@ -484,7 +492,7 @@ def dec_request(msg):
             out['type'] = TYPES[code][0]
             out['elements'] = n
             out['offset'] = o
-            out['values'] = dec_elems(out['type'], rest[8:])
+            out['values'] = dec_elems(out['type'], rest[8:], strict=False)
         elif svc == SA_SINGLE:
             out['data'] = bytes(rest)
         elif svc == MULTIPLE:
@@ -495,17 +503,21 @@ def dec_request(msg):
             members = []
             for i, o in enumerate(offs):
                 e = offs[i + 1] if i + 1 < n else len(rest)
-                need(2 + 2 * n <= o <= e <= len(rest), 'multiple offsets inconsistent')
-                members.append(dec_request(rest[o:e]))
+                try:
+                    need(2 + 2 * n <= o <= e <= len(rest), 'multiple offsets inconsistent')
+                    members.append(dec_request(rest[o:e]))
+                except DecodeError:
+                    members.append(None)        # this member cannot be read; the others still can
             out['members'] = members
         elif svc == UNCONNECTED_SEND:
             need(len(rest) >= 4, 'unconnected send header')
             prio, ticks, ln = struct.unpack_from('<BBH', rest, 0)
-            need(len(rest) >= 4 + ln + (ln % 2), 'unconnected send message truncated')
+            need(len(rest) >= 4 + ln, 'unconnected send message truncated')
             out['request'] = dec_request(rest[4:4 + ln])
-            rp, end = dec_epath(rest, 4 + ln + (ln % 2), padded=True)
-            need(end == len(rest), 'trailing after route path')
-            out['route'] = rp
+            try:
+                out['route'], _ = dec_epath(rest, 4 + ln + (ln % 2), padded=True, lenient=True)
+            except (DecodeError, IndexError, struct.error):
+                out['route'] = None
         else:
             out['rest'] = bytes(rest)
         return out
